@@ -56,6 +56,118 @@ pub fn run_sql(rt: &tokio::runtime::Runtime, ctx: &SessionContext, sql: &str) ->
     }
 }
 
+/// stable name of an engine refusal / internal failure (used in oracle signatures)
+fn reject_kind(m: &str) -> String {
+    if m.contains("Physical input schema should be the same") {
+        "physical-schema-mismatch".into()
+    } else if m.contains("SanityCheckPlan") {
+        "sanity-check-plan".into()
+    } else if m.contains("duplicate unqualified field name") {
+        "duplicate-field-name".into()
+    } else {
+        let t: String = m.chars().filter(|c| c.is_ascii_alphabetic() || *c == ' ').take(60).collect();
+        format!("other:{}", t.trim().replace(' ', "-"))
+    }
+}
+
+/// does some WHERE clause contain `x NOT IN (sub-query)` elsewhere than as a top-level conjunct?
+/// (the engine plans that position as a mark join, which is not NULL-aware: known finding)
+fn notin_not_conjunct(q: &Query) -> bool {
+    fn is_notin(e: &Expr) -> bool {
+        match e {
+            Expr::Sub { kind: SubKind::In, neg: true, .. } => true,
+            Expr::Not(a) => matches!(&**a, Expr::Sub { kind: SubKind::In, neg: false, .. }),
+            _ => false,
+        }
+    }
+    /// `<constant> NOT IN (sub-query)`: the comparison is pushed into the sub-query as a filter,
+    /// which removes its NULL rows before the (then key-less) anti join
+    fn const_needle(e: &Expr) -> bool {
+        match e {
+            Expr::Sub { kind: SubKind::In, neg: true, x: Some(x), .. } => !x.has_col(),
+            Expr::Not(a) => matches!(&**a, Expr::Sub { kind: SubKind::In, neg: false, x: Some(x), .. } if !x.has_col()),
+            _ => false,
+        }
+    }
+    fn nested(e: &Expr) -> bool {
+        // any NOT IN sub-query inside e (e itself included)
+        if is_notin(e) {
+            return true;
+        }
+        match e {
+            Expr::Bin(_, a, b) | Expr::Nullif(a, b) => nested(a) || nested(b),
+            Expr::Not(a) | Expr::Neg(a) | Expr::Is(_, _, a) => nested(a),
+            Expr::Case(o, ws, el) => o.as_ref().map(|x| nested(x)).unwrap_or(false) || ws.iter().any(|(w, t)| nested(w) || nested(t)) || el.as_ref().map(|x| nested(x)).unwrap_or(false),
+            Expr::Coalesce(xs) => xs.iter().any(nested),
+            _ => false,
+        }
+    }
+    fn conj(e: &Expr) -> bool {
+        match e {
+            Expr::Bin(Op::And, a, b) => conj(a) || conj(b),
+            e if is_notin(e) => const_needle(e),
+            e => nested(e),
+        }
+    }
+    fn from(f: &From) -> bool {
+        match f {
+            From::Table { .. } => false,
+            From::Join { l, r, .. } => from(l) || from(r),
+            From::Derived { q, .. } => notin_not_conjunct(q),
+        }
+    }
+    match &q.body {
+        Body::Select(s) => s.where_.as_ref().map(conj).unwrap_or(false) || from(&s.from),
+        Body::SetOp { l, r, .. } => notin_not_conjunct(l) || notin_not_conjunct(r),
+    }
+}
+
+/// a comparison / IN list / BETWEEN of `TRY_CAST(e AS integer)` with literals somewhere in the
+/// query: `unwrap_cast` rewrites it to a comparison on `e` itself, which differs when the TRY_CAST
+/// is narrowing and yields NULL (known finding, shared with C04)
+fn trycast_literal_cmp(q: &Query) -> bool {
+    let mut hit = false;
+    let is_tc = |e: &Expr| matches!(e, Expr::Cast { try_: true, ty: Ty::Int(_), .. });
+    let is_lit = |e: &Expr| matches!(e, Expr::Lit(..));
+    let _ = q.map_exprs(&mut |e: Expr| {
+        match &e {
+            Expr::Bin(op, a, b) if Op::CMP.contains(op) || matches!(op, Op::Distinct | Op::NotDistinct) => {
+                if (is_tc(a) && is_lit(b)) || (is_lit(a) && is_tc(b)) {
+                    hit = true;
+                }
+            }
+            Expr::In(_, a, l) if is_tc(a) && l.iter().all(|x| is_lit(x)) => hit = true,
+            Expr::Between(_, a, lo, hi) if is_tc(a) && is_lit(lo) && is_lit(hi) => hit = true,
+            _ => {}
+        }
+        e
+    });
+    hit
+}
+
+/// a derived table that is a global aggregate with a COUNT: its output column is declared NOT
+/// NULL, and nullability-driven rewrites above it (outer-join NULL extension, IS NULL on a group
+/// key / HAVING) go wrong (known findings)
+fn derived_global_count(q: &Query) -> bool {
+    fn from(f: &From) -> bool {
+        match f {
+            From::Table { .. } => false,
+            From::Join { l, r, .. } => from(l) || from(r),
+            From::Derived { q, .. } => {
+                let here = match &q.body {
+                    Body::Select(s) => matches!(&s.group, Some(g) if g.keys.is_empty() && g.aggs.iter().any(|a| matches!(a.f, AggFn::Count | AggFn::CountStar))),
+                    _ => false,
+                };
+                here || derived_global_count(q)
+            }
+        }
+    }
+    match &q.body {
+        Body::Select(s) => from(&s.from),
+        Body::SetOp { l, r, .. } => derived_global_count(l) || derived_global_count(r),
+    }
+}
+
 fn counts(rows: &[Vec<Val>]) -> BTreeMap<Vec<Val>, usize> {
     let mut m = BTreeMap::new();
     for r in rows {
@@ -68,7 +180,18 @@ pub fn run(run: &mut Run, args: &Args) {
     let mut rng = Rng::new(args.seed);
     hutil::quiet_panics();
     let rt = tokio::runtime::Builder::new_current_thread().enable_all().build().unwrap();
-    let n_queries = run.budget(330, 6000);
+    // ad-hoc reproduction of a finding on the real engine: C01_ADHOC_SQL="stmt; stmt; …"
+    if let Ok(sqls) = std::env::var("C01_ADHOC_SQL") {
+        let ctx = SessionContext::new_with_config(SessionConfig::new().with_target_partitions(1));
+        for sql in sqls.split(';').map(|s| s.trim()).filter(|s| !s.is_empty()) {
+            match run_sql(&rt, &ctx, sql) {
+                Ok(rows) => println!("{sql}\n  => {} row(s): {}", rows.len(), rows_sexp(&rows)),
+                Err(m) => println!("{sql}\n  => ERROR {m}"),
+            }
+        }
+        return;
+    }
+    let n_queries = run.budget(330, 2500);
     let n_data = if run.thorough() { 3 } else { 2 };
     let mut construct_hits: BTreeMap<&'static str, u64> = BTreeMap::new();
     let mut n_total = 0u64;
@@ -82,6 +205,18 @@ pub fn run(run: &mut Run, args: &Args) {
         };
         let sql = q.sql();
         let plan = q.plan();
+        let notin_nc = notin_not_conjunct(&q);
+        if notin_nc {
+            run.count("shape:not-in-subquery-not-conjunct-or-constant-needle");
+        }
+        let trycast_cmp = trycast_literal_cmp(&q);
+        if trycast_cmp {
+            run.count("shape:try-cast-compared-with-literal");
+        }
+        let derived_cnt = derived_global_count(&q);
+        if derived_cnt {
+            run.count("shape:derived-global-count");
+        }
         let mut cs = BTreeSet::new();
         q.constructs(&mut cs);
         for c in &cs {
@@ -122,11 +257,14 @@ pub fn run(run: &mut Run, args: &Args) {
                         continue;
                     }
                     if c == "plan" || c == "notimpl" || c == "other" {
-                        // not a run-time error class of the reference: the engine rejects a query of
-                        // the fragment.  Reported as a disagreement by the model judge (class kept).
-                        if run.samples.len() < 5 {
-                            run.note(&format!("engine rejected `{sql}`: {}", m.chars().take(300).collect::<String>()));
-                        }
+                        // not a run-time error of the reference: the engine refuses / breaks on a
+                        // query of the fragment — the property's "fails only where the reference
+                        // fails" is violated whatever the model says: implementation-level oracle
+                        eprintln!("REJECTED [{c}] `{sql}`: {}", m.chars().take(400).collect::<String>());
+                        let kind = reject_kind(m);
+                        run.count(&format!("engine-rejects:{kind}"));
+                        run.oracle(false, &format!("engine-rejects:{kind} `{sql}` db={dbs}"), &m.chars().take(600).collect::<String>());
+                        continue;
                     }
                     format!("(err {c})")
                 }
@@ -136,8 +274,11 @@ pub fn run(run: &mut Run, args: &Args) {
                 run.oracle(rows.len() as u64 <= f, &format!("limit-exceeded `{sql}`"), &format!("{} rows returned with LIMIT {f}; db={dbs}", rows.len()));
             }
             if let Body::SetOp { kind, all: true, l, r } = &q.body {
-                if *kind != SetKind::Union && q.limit.is_none() {
-                    if let (Ok(rows), Ok(lr), Ok(rr)) = (&res, run_sql(&rt, &ctx, &l.sql()), run_sql(&rt, &ctx, &r.sql())) {
+                if *kind != SetKind::Union && res.is_ok() {
+                    // judged on the set operation itself (ORDER BY / LIMIT stripped)
+                    let base = Query { body: q.body.clone(), order: vec![], limit: None };
+                    let base_res = if q.limit.is_none() { res.clone() } else { run_sql(&rt, &ctx, &base.sql()) };
+                    if let (Ok(rows), Ok(lr), Ok(rr)) = (&base_res, run_sql(&rt, &ctx, &l.sql()), run_sql(&rt, &ctx, &r.sql())) {
                         let (cl, cr, co) = (counts(&lr), counts(&rr), counts(rows));
                         let mut bad = None;
                         for (row, nl) in &cl {
@@ -168,8 +309,20 @@ pub fn run(run: &mut Run, args: &Args) {
             if skip_model {
                 continue;
             }
+            if std::env::var("C01_TRACE").is_ok() {
+                eprintln!("CASE#{} `{sql}`", run.n_cases);
+            }
             let nontrivial = structural && !matches!(&res, Ok(r) if r.is_empty());
-            run.case("query", &format!("({mode} {plan} {dbs} {impl_sexp})"), "ok", nontrivial);
+            let op = if notin_nc {
+                "query-notin-unaware-shape"
+            } else if trycast_cmp {
+                "query-trycast-literal-cmp"
+            } else if derived_cnt {
+                "query-derived-global-count"
+            } else {
+                "query"
+            };
+            run.case(op, &format!("({mode} {plan} {dbs} {impl_sexp})"), "ok", nontrivial);
             if qi < 3 && ds == 0 {
                 run.note(&format!("sample SQL: {sql}"));
             }
